@@ -105,9 +105,20 @@ def run(ctx):
     # sockets that deliver their data in several chunks (short reads inside the exact loop)
     for _ in range(60 if ctx.tier == "quick" else 600):
         prog += chunk_history(ctx.rnd)
+    # a descriptor that takes less than it is offered (non-blocking socket, smallest send buffer, peer not reading)
+    prog.append({"op": "init", "a": {"kind": "vec", "data": [], "pos": 0}})
+    nfull = 0
+    for ln in (1, 100, 4000, 4480, 4481, 5000, 9000, 60000, 300000):
+        for exact in (False, True):
+            prog.append({"op": "full_sock", "a": {"len": ln, "exact": exact}})
+            nfull += 1
     events = run_harness("streams", prog, os.path.join(WORK, "tr_streams.ev.ndjson"), ctx=ctx)
+    short = sum(1 for e in events if e["op"] == "full_sock" and e["r"]["delivered"] < e["a"]["len"])
+    if short < 4:
+        raise ToolError("the full-socket sink did not produce short writes (%d)" % short)
+    ctx.cov["short_descriptor_writes"] = short
     judge_chunks(ctx, "tr_streams", events)
-    ctx.cov["traces_validated_against_impl"] += nhist
+    ctx.cov["traces_validated_against_impl"] += nhist + nfull
     ctx.sample({"kind": "recorded adapter history (volatile call and std twin) validated by Trace_Streams", "events": events[:4]})
     ctx.assumptions += [
         "the reference semantics is std::io of the installed toolchain: every event also validates the real std result "
